@@ -430,6 +430,10 @@ func (m *SyncMap) Range(f func(k, v any) bool) {
 	}
 }
 
+// ReverseMapOrder makes SortedKeys return descending order (a harness can run a
+// case under both orders).
+var ReverseMapOrder bool
+
 // SortedKeys returns the keys of m in a canonical order, so that map
 // iteration order is not a source of nondeterminism the scheduler does not own.
 func SortedKeys[M ~map[K]V, K comparable, V any](m M) []K {
@@ -440,7 +444,12 @@ func SortedKeys[M ~map[K]V, K comparable, V any](m M) []K {
 	if len(keys) < 2 {
 		return keys
 	}
-	sort.Slice(keys, func(i, j int) bool { return keyLess(any(keys[i]), any(keys[j])) })
+	sort.Slice(keys, func(i, j int) bool {
+		if ReverseMapOrder {
+			return keyLess(any(keys[j]), any(keys[i]))
+		}
+		return keyLess(any(keys[i]), any(keys[j]))
+	})
 	return keys
 }
 
